@@ -54,13 +54,15 @@ def cfg_list(tier):
             for place in itertools.product(range(2), repeat=K):
                 if not balance and any(place):
                     continue
-                for who in [f'c{k}' for k in range(K)] + ['new']:
+                for who in [f'c{k}' for k in range(K)] + ['new', 'c0+sibling']:       # a tracked connection, an unknown client, an unknown CONNECTION of a tracked client id (replica / restart)
                     for kind in ('request', 'close', 'oob'):
                         for required in ((), ('c0',), ('zz',)):
                             for push, tm in ((False, 'dict'), (False, 'call'), (False, 'callnone'), (True, 'dict')):
                                 if push and balance:
                                     continue   # precondition from the only call site (MQ.send -> metrics_sender, never balanced)
                                 wpull = place[int(who[1])] if who != 'new' else 0
+                                if who == 'c0+sibling' and (kind == 'oob' or tm != 'dict' or required == ('zz',)):
+                                    continue
                                 cfgs.append(dict(balance=balance, K=K, B=2, place=place, who=who, wpull=wpull, kind=kind, required=required, push=push, tm=tm, state='given'))
     # entry paths of send(): no state (internal counter) and a state whose id has already been passed
     for st in ('none', 'older'):
@@ -93,6 +95,8 @@ def run_send(cfg, dec):
     who = cfg['who']
     wpull = pulls[cfg['wpull']]
     rq = dict(cid=who, mid=z3.Int('rq_prev'), eph=z3.Int('rq_eph'), new=z3.Bool('rq_new'), xtra=None)
+    if who == 'c0+sibling':      # connections are keyed by client id + unique id: another live connection of the same client id is a different consumer
+        rq.update(cid='c0', uid='+sibling')
     ex.assume(z3.And(rq['eph'] >= 0, rq['eph'] <= 2))
     if cfg['kind'] == 'request':
         ex.assume(rq['mid'] >= -1)
@@ -213,9 +217,9 @@ def send_obligations(ex, R):
         cw = mid['clients'][w]
         O('C04.one_publish_per_request: processing a request marks exactly the requesting client', nz(cw.requested))
         O('C04.removal: t_last of the requesting client is refreshed', isinstance(cw.t_last, z3.ExprRef) and not any(cw.t_last is c.t_last for c in pre.values()))
-        if w == 'new':
+        if w in ('new', 'c0+sibling'):
             O('C03.handshake: a new client enters the table only through a request that does not carry `new`', z3.Not(req['new']))
-    if cfg['kind'] == 'request' and w == 'new' and w not in mid['clients']:
+    if cfg['kind'] == 'request' and w in ('new', 'c0+sibling') and w not in mid['clients']:
         O('C03.handshake: a `new` request from an unknown client is answered with HELLO only', zb(req['new']))
     if R['r1'] is True and cfg['kind'] == 'request' and w in mid['clients'] and not cfg['balance']:
         cl = mid['clients']
